@@ -382,6 +382,17 @@ impl<'a> Sim<'a> {
         f(top.iter_mut())
     }
 
+    /// Verification hook: read-only snapshot of a host's socket tables.
+    #[cfg(feature = "verif-hooks")]
+    pub fn verif_host_tables(&self, addr: impl ToIpAddr) -> crate::host::VerifHostTables {
+        let mut world = self.world.borrow_mut();
+        let addr = world.lookup(addr);
+        let groups = world.multicast_groups.verif_members_on(addr);
+        let mut t = world.hosts.get(&addr).expect("missing host").verif_tables();
+        t.multicast_memberships = groups;
+        t
+    }
+
     /// Run the simulation until all client hosts have completed.
     ///
     /// Executes a simple event loop that calls [step](#method.step) each
